@@ -109,7 +109,7 @@ def match3 (L : Lang) (σ : Store) : Nat → Bool → Bool → Term → Term →
       if st && ao == BOT then some true
       else if (bi.upper.isSome || bi.lower.isSome) && arityOf L ao != 0 then some false
       else if bi.upper.any (fun u => !opSub L ao u) then some false
-      else if bi.lower.any (fun l => !opSub L l ao) then some false
+      else if !st && bi.lower.any (fun l => !opSub L l ao) then some false
       else if aw && bi.wildcard then some true
       else none
     | .var av, .app bo _ =>
@@ -117,7 +117,7 @@ def match3 (L : Lang) (σ : Store) : Nat → Bool → Bool → Term → Term →
       if st && bo == TOP then some true
       else if (ai.upper.isSome || ai.lower.isSome) && arityOf L bo != 0 then some false
       else if ai.lower.any (fun l => !opSub L l bo) then some false
-      else if ai.upper.any (fun u => !opSub L u bo) then some false
+      else if !st && ai.upper.any (fun u => !opSub L u bo) then some false
       else if aw && ai.wildcard then some true
       else none
     | .var av, .var bv =>
@@ -131,16 +131,20 @@ def match3 (L : Lang) (σ : Store) : Nat → Bool → Bool → Term → Term →
 
 def matchFuel (σ : Store) : Nat := 4 * σ.vars.length + 64
 
-/-- `value in self` (`__contains__`, type.py:437-442): `self=a`, `value=b` -/
+/-- `value in self` (`__contains__`, type.py:445-456, as repaired): `self=a`, `value=b` -/
 def occurs (L : Lang) (σ : Store) : Nat → Term → Term → Bool
   | 0, _, _ => false
   | n+1, a, b =>
     let a' := followT σ a
     let b' := followT σ b
-    match3 L σ (matchFuel σ) false false a' b' == some true ||
-      (match a' with
-       | .app _ args => args.any (fun t => occurs L σ n t b')
-       | .var _ => false)
+    match a', b' with
+    -- fix: two distinct wildcards match each other, but neither occurs in the other
+    | .var av, .var bv => av == bv
+    | _, _ =>
+      match3 L σ (matchFuel σ) false false a' b' == some true ||
+        (match a' with
+         | .app _ args => args.any (fun t => occurs L σ n t b')
+         | .var _ => false)
 
 /-- all distinct unbound variables of a term after following (`variables(indirect=False)`) -/
 def directVars (σ : Store) : Nat → Term → List Nat → List Nat
